@@ -50,6 +50,11 @@ def type_hint_to_tuple(type_hint) -> tuple:
     return (type_hint,)
 
 
+def _is_subscripted(type_hint) -> bool:
+    """`tuple[()]` and `list[int]` are, bare `typing.Tuple` and `typing.List` are not"""
+    return hasattr(type_hint, "__args__")
+
+
 def _get_type_hints(type_hint) -> tuple[type | None, typing.Any]:
     hint = typing.get_origin(type_hint)
     if hint is typing.Annotated:
@@ -88,26 +93,28 @@ def type_hint_is_as_or_more_specific_than(hint, other) -> bool:
         if len(hint_args) == 0 and len(other_args) > 0:
             # Failing to specify anything is not being more specific
             return False
-        elif hint_origin in [dict, tuple, Callable]:
-            # for these origins the order of arguments matters
-            if len(other_args) == 0:
-                # If the other doesn't specify _any_ arguments, we must be more specific
-                return True
-            elif len(other_args) == len(hint_args):
-                # If they both specify arguments, they should be more specific 1:1
-                return all(
-                    type_hint_is_as_or_more_specific_than(h, o)
-                    for o, h in zip(other_args, hint_args, strict=False)
-                )
-            else:
-                # Otherwise they both specify but a mis-matching number of args
-                return False
-        else:
-            # Otherwise order doesn't matter so make sure the arguments are a subset
+        elif len(other_args) == 0:
+            # A bare alias like `typing.Tuple` or `typing.Dict` leaves everything open,
+            # but `tuple[()]` is explicit: the empty tuple and nothing else
+            return not _is_subscripted(other_type) or (
+                _is_subscripted(hint_type) and len(hint_args) == 0
+            )
+        elif hint_origin is typing.Literal:
+            # The admitted values are a set, so make sure the arguments are a subset
             return all(
                 any(type_hint_is_as_or_more_specific_than(h, o) for o in other_args)
                 for h in hint_args
             )
+        elif len(other_args) == len(hint_args):
+            # Everywhere else the position of an argument carries its meaning
+            # (`Mapping[str, int]` is not `Mapping[int, str]`): compare 1:1
+            return all(
+                type_hint_is_as_or_more_specific_than(h, o)
+                for o, h in zip(other_args, hint_args, strict=False)
+            )
+        else:
+            # Otherwise they both specify but a mis-matching number of args
+            return False
     else:
         # Lastly, if they both have origins, but different ones, fail
         return False
